@@ -181,6 +181,23 @@ Lemma gauge_exemplar_orig_refuted :
   om_render true [gauge_with_exemplar] = Err ValueError.
 Proof. repeat split; vm_compute; reflexivity. Qed.
 
+(* the pinned eligibility test compared `metric.type in ('gaugehistogram')`: a substring test, so a GAUGE family with a
+   sample named *_bucket was eligible too; the parser rejects the line it wrote.  Repaired: equality of types. *)
+Definition gauge_bucket_sample : sample :=
+  {| s_name := s2l "f_bucket"; s_labels := []; s_value := FFin true (s2l "1.0"); s_ts_ms := None; s_ts_om := None;
+     s_ex := Some {| ex_labels := [(s2l "a", s2l "b")]; ex_value := FFin true (s2l "0.5"); ex_ts := None |} |}.
+Definition gauge_bucket_family : family :=
+  {| f_name := s2l "f_bucket"; f_doc := s2l "h"; f_type := s2l "gauge"; f_unit := []; f_samples := [gauge_bucket_sample] |}.
+Definition gauge_bucket_text : str :=
+  s2l "# HELP f_bucket h" ++ [LF] ++ s2l "# TYPE f_bucket gauge" ++ [LF] ++ s2l "f_bucket 1.0 # {a=" ++ [DQ] ++ s2l "b" ++ [DQ] ++ s2l "} 0.5" ++ [LF]
+  ++ s2l "# EOF" ++ [LF].
+Lemma exemplar_type_substring_orig_refuted :
+  is_valid_exemplar_metric_orig (s2l "gauge") (s2l "g") gauge_bucket_sample = true /\
+  toy_text true true gauge_bucket_text = Err ValueError /\
+  is_valid_exemplar_metric (s2l "gauge") (s2l "g") gauge_bucket_sample = false /\
+  om_render true [gauge_bucket_family] = Err ValueError.
+Proof. repeat split; vm_compute; reflexivity. Qed.
+
 (* ---------- L5: a hostile counter family with exemplars ---------- *)
 From V Require Import proofs.OMCounterRoundTrip.
 
